@@ -147,6 +147,8 @@ func c38Ops(m *sx.Model, versioning bool) []sx.Op {
 				ops = append(ops, sx.Op{Kind: "Delete", B: "bka", K: k, V: v.VID})
 				if !v.Marker {
 					ops = append(ops, sx.Op{Kind: "Transition", B: "bka", K: k, V: v.VID, Opt: map[string]string{"class": "GLACIER"}})
+					ops = append(ops, sx.Op{Kind: "PutTagging", B: "bka", K: k, V: v.VID, Opt: map[string]string{"tags": "v=1"}})
+					ops = append(ops, sx.Op{Kind: "DeleteTagging", B: "bka", K: k, V: v.VID})
 				}
 			}
 		}
